@@ -237,8 +237,10 @@ def shard(idx: int, nshards: int, seed: int, n_free: int, n_conf: int, n_cli: in
     res = Result()
     run_table(idx, nshards, res)
     core_w = None  # drawn
-    hyp_run(lambda p: check_free(p, res), G.programs(import_coredefs=core_w, max_files=6), seed, n_free, res)
-    hyp_run(lambda p: check_conflict(p, res), G.conflict_programs(import_coredefs=core_w), seed + 1, n_conf, res)
+    sb = G.ShrinkBudget(15)
+    hyp_run(sb.body(lambda p: check_free(p, res)), sb.wrap(G.programs(import_coredefs=core_w, max_files=6)), seed, n_free, res)
+    sb = G.ShrinkBudget(15)
+    hyp_run(sb.body(lambda p: check_conflict(p, res)), sb.wrap(G.conflict_programs(import_coredefs=core_w)), seed + 1, n_conf, res)
     if n_cli:
         rnd = G.RandomChooser(seed + 2)
         for k in range(n_cli):
